@@ -12,6 +12,7 @@
       latencies, with a death point = any prefix of the trace. *)
 From Coq Require Import List ZArith Bool.
 Import ListNotations.
+From GU Require Import C17.Facts C17.Gen.
 Local Open Scope Z_scope.
 
 (* ------------------------------------------------------------------------------------------------ *)
@@ -232,6 +233,180 @@ Fixpoint last_at (evs : list ev) (d : Z) : Z :=
   match evs with [] => d | e :: r => last_at r (e_at e) end.
 
 (* ------------------------------------------------------------------------------------------------ *)
+(* 4. the model INSTANTIATED BY THE FACTS extracted from the source (GU.C17.Facts / GU.C17.Gen)       *)
+(* Everything above is the reference reading of the code; everything below interprets the generated   *)
+(* record.  Proofs.v shows that under named conditions on the record the two coincide; Props.v states   *)
+(* the theorems for [gen_facts] and discharges the conditions each theorem needs by computation.      *)
+
+Definition conv (u : dunit) (d : Z) : Z :=
+  match u with
+  | UNanos => d
+  | UMicros => Z.quot d 1000
+  | UMillis => Z.quot d ms
+  | USeconds => Z.quot d 1000000000
+  end.
+
+Definition cmp_f (c : cmpop) (a b : Z) : bool :=
+  match c with
+  | CGt => a >? b | CGe => a >=? b | CLt => a <? b | CLe => a <=? b | CEq => a =? b | CNe => negb (a =? b)
+  end.
+
+(* the views and traces of this model carry MODIFICATION times; a code that ages any other time is outside it *)
+Definition reads_mtime (F : facts) : bool :=
+  match f_time_source F, f_ft_default_modtime F with
+  | TModTime, TModTime => f_ft_default_when_sys_nil F
+  | _, _ => false
+  end.
+
+(* isStale *)
+Definition is_stale_time_f (F : facts) (mt : option Z) (now period : Z) : bool :=
+  match mt with
+  | None => f_nil_time_stale F
+  | Some m => reads_mtime F &&
+              cmp_f (f_cmp F) (conv (f_age_unit F) (now - m)) (f_factor F * conv (f_period_unit F) period)
+  end.
+
+Definition per (F : facts) (fld : pfield) (period : Z) : Z :=
+  match fld with PHeartBeat => period | PBetweenTries => f_tries_ns F end.
+
+Definition combine_f (c : comb) (l : list bool) : bool :=
+  match c with CombAll => all_true l | CombAny => existsb (fun b => b) l end.
+
+(* one round of areHeartBeatFilesAllStale's loop: [s] = None is a failed StatTimes *)
+Definition file_stale_f (F : facts) (s : option Z) (now period : Z) : bool :=
+  match s with
+  | Some m => if f_file_judged_when_stat_ok F then is_stale_time_f F (Some m) now period else f_file_default_stale F
+  | None => if f_file_judged_when_stat_ok F then f_file_default_stale F else is_stale_time_f F None now period
+  end.
+
+(* IsStale: the ordered guards *)
+Definition is_stale_view_f (F : facts) (v : view) (now period : Z) : bool :=
+  match v_ls v with
+  | None => f_ls_err_stale F
+  | Some fs =>
+      if (match fs with [] => f_empty_uses_dir F | _ => false end)
+      then match v_dir v with
+           | None => f_dir_stat_err_stale F
+           | Some d => is_stale_time_f F (Some d) now (per F (f_empty_period F) period)
+           end
+      else combine_f (f_combine F) (map (fun s => file_stale_f F s now (per F (f_files_period F) period)) fs)
+  end.
+
+Definition is_stale_st_f (F : facts) (st : lockst) (now period : Z) : bool := is_stale_view_f F (view_of st) now period.
+
+Definition unlock_st (st : lockst) : lockst * outcome :=
+  (no_lock, match l_dir st with Some _ => OReleased | None => ONoop end).
+
+Definition release_f (F : facts) (st : lockst) (now period : Z) : lockst * outcome :=
+  match f_release F with
+  | RIfStaleUnlock => if is_stale_st_f F st now period then unlock_st st else (st, ONoop)
+  | RIfNotStaleUnlock => if is_stale_st_f F st now period then (st, ONoop) else unlock_st st
+  | RAlwaysUnlock => unlock_st st
+  | RNeverUnlock => (st, ONoop)
+  end.
+
+Definition tl_out (e : tlerr) : outcome := match e with TLLocked => OLocked | TLStaleLock => OStaleLock end.
+
+Fixpoint try_lock_fuel_f (F : facts) (fuel : nat) (override : bool) (st : lockst) (now period : Z) : lockst * outcome :=
+  if negb (f_tl_mkdir F) then (mkLock (Some now) (l_files st), OAcquired)      (* MkdirAll never reports "exists" *)
+  else
+  match l_dir st with
+  | None => (fresh_lock now, OAcquired)
+  | Some _ =>
+      if Bool.eqb (is_stale_st_f F st now period) (f_tl_stale_test F) then
+        if Bool.eqb override (f_tl_override_test F) then
+          match fuel with
+          | O => (st, OLocked)
+          | S f => try_lock_fuel_f F f override
+                     (if f_tl_override_releases F then fst (release_f F st now period) else st) now period
+          end
+        else (st, tl_out (f_tl_stale_err F))
+      else (st, tl_out (f_tl_live_err F))
+  end.
+
+Definition run_op_f (F : facts) (op : obs_op) (st : lockst) (now period : Z) : lockst * outcome :=
+  match op with
+  | OpIsStale => (st, OStale (is_stale_st_f F st now period))
+  | OpRelease => release_f F st now period
+  | OpTryLock o => try_lock_fuel_f F 2 o st now period
+  end.
+
+Definition is_stale_na_f (F : facts) (evs : list ev) (t1 t2 t3 period : Z) : bool :=
+  is_stale_view_f F (observe evs t1 t2) t3 period.
+
+(* the holder: TryLock's acquire path and heartBeat's loop *)
+Definition acquire_events_f (F : facts) (t0 : Z) (a : acq_lat) : list ev :=
+  mkEv t0 ODir t0 t0 ::
+  (if f_tl_chtimes_dir_now F then [mkEv (t0 + a_now a + a_chtimes a) ODir (t0 + a_now a) (t0 + a_now a)] else []).
+
+Definition stamp_f (F : facts) (s : Z) (c : cyc_lat) : list ev :=
+  match f_hb_chtimes_arg F with ANow => [ev_stamp s c] | AOther => [] end.
+
+(* what an iteration leaves behind, given how the loop treats the errors of its two operations *)
+Definition cycle_events_f (F : facts) (s : Z) (ex : bool) (c : cyc_lat) : list ev :=
+  match c_fault c with
+  | FNone => ev_create s c :: ev_write s c :: stamp_f F s c
+  | FOpen => match f_hb_write_err F with EIgnore => if ex then stamp_f F s c else [] | EReturn => [] end
+  | FWrite => ev_create s c :: match f_hb_write_err F with EIgnore => stamp_f F s c | EReturn => [] end
+  | FChtimes => [ev_create s c; ev_write s c]
+  end.
+
+(* does the loop go on after this iteration? *)
+Definition goes_on (F : facts) (c : cyc_lat) : bool :=
+  match c_fault c with
+  | FNone => true
+  | FOpen | FWrite => match f_hb_write_err F with EIgnore => true | EReturn => false end
+  | FChtimes => match f_hb_chtimes_err F with EIgnore => true | EReturn => false end
+  end.
+
+Definition next_start_f (F : facts) (s : Z) (c : cyc_lat) (period : Z) : Z :=
+  s + cyc_total c + (period - f_hb_sleep_slack_ns F).
+
+Fixpoint cycles_events_f (F : facts) (s : Z) (ex : bool) (cs : list cyc_lat) (period : Z) : list ev :=
+  match cs with
+  | [] => []
+  | c :: r => cycle_events_f F s ex c ++
+              (if goes_on F c then cycles_events_f F (next_start_f F s c period) (ex || opened c) r period else [])
+  end.
+
+Fixpoint cycle_starts_f (F : facts) (s : Z) (cs : list cyc_lat) (period : Z) : list Z :=
+  match cs with
+  | [] => []
+  | c :: r => s :: (if goes_on F c then cycle_starts_f F (next_start_f F s c period) r period else [])
+  end.
+
+Fixpoint end_start_f (F : facts) (s : Z) (cs : list cyc_lat) (period : Z) : Z :=
+  match cs with [] => s | c :: r => end_start_f F (next_start_f F s c period) r period end.
+
+Definition stopped_f (F : facts) (cs : list cyc_lat) : bool := existsb (fun c => negb (goes_on F c)) cs.
+
+Definition holder_trace_f (F : facts) (t0 : Z) (a : acq_lat) (cs : list cyc_lat) (period : Z) : list ev :=
+  acquire_events_f F t0 a ++
+  cycles_events_f F (first_start t0 a) false cs (per F (f_hb_spawn_period F) period).
+
+(* what ends the loop: the heartbeat context is a child of the holder's context iff [f_hb_ctx] says so and the loop
+   looks at it; its cancel function sits in the lock's store iff it is registered there; Unlock cancels that store;
+   so does the timeout runner of LockWithTimeout if (and only if) one of its branches calls store.Cancel() on the
+   lock's own store *)
+Definition has_store (l : list xcancel) : bool := existsb (fun x => match x with XStore => true | _ => false end) l.
+
+Definition ends_loop_f (F : facts) (c : api_call) : bool :=
+  match api_k c with
+  | KCancelOwn => f_hb_ctx_check_first F && match f_hb_ctx F with DCancelOfCtx => true | _ => false end
+  | KUnlock => api_same c && f_unlock_cancels_first F && f_hb_cancel_registered F
+  | KLockWithTimeout =>
+      api_same c && f_lwt_own_store F && f_hb_cancel_registered F && f_hb_ctx_check_first F &&
+      (has_store (f_x_timeout_branch F) || has_store (f_x_err_branch F) || has_store (f_x_ok_tail F))
+  | _ => false
+  end.
+
+Fixpoint loop_end_f (F : facts) (calls : list api_call) : option Z :=
+  match calls with
+  | [] => None
+  | c :: r => if ends_loop_f F c then Some (api_at c) else loop_end_f F r
+  end.
+
+(* ------------------------------------------------------------------------------------------------ *)
 (* correspondence cases                                                                              *)
 
 Definition outcome_eqb (a b : outcome) : bool :=
@@ -271,34 +446,41 @@ Inductive case :=
    it), so the next iteration is due at [end_start]; more than 10 periods of silence are not a run of the machine *)
 | CHolder (period : Z) (t0 : Z) (a : acq_lat) (cs : list cyc_lat) (k : nat) (observed : list ev) (calls : list api_call) (alive_until : option Z).
 
-Definition check_case (c : case) : bool :=
+Definition check_case_f (F : facts) (c : case) : bool :=
   match c with
   | CView p v lo hi got =>
-      let a := is_stale_view v lo p in
-      let b := is_stale_view v hi p in
+      let a := is_stale_view_f F v lo p in
+      let b := is_stale_view_f F v hi p in
       if Bool.eqb a b then Bool.eqb got a else true
   | COp p op st lo hi got dir_after =>
-      let '(s1, o1) := run_op op st lo p in
-      let '(s2, o2) := run_op op st hi p in
+      let '(s1, o1) := run_op_f F op st lo p in
+      let '(s2, o2) := run_op_f F op st hi p in
       if outcome_eqb o1 o2
       then outcome_eqb got o1 && Bool.eqb dir_after (match l_dir s1 with Some _ => true | None => false end)
       else true
   | CTrace p early late l1 h1 l2 h2 l3 h3 got =>
       (* the answer is monotone: later landing, earlier reading, later evaluation => staler *)
-      if got then is_stale_na late l1 l2 h3 p       (* the stalest reading consistent with the record must be stale *)
-      else negb (is_stale_na early h1 h2 l3 p)      (* the freshest one must not be *)
+      if got then is_stale_na_f F late l1 l2 h3 p       (* the stalest reading consistent with the record must be stale *)
+      else negb (is_stale_na_f F early h1 h2 l3 p)      (* the freshest one must not be *)
   | CHolder p t0 a cs k observed calls alive_until =>
-      acq_nonneg a && forallb cyc_nonneg cs && evs_eqb (dead_after k (holder_trace t0 a cs p)) observed
-      && match loop_end calls with
+      acq_nonneg a && forallb cyc_nonneg cs && evs_eqb (dead_after k (holder_trace_f F t0 a cs p)) observed
+      && match loop_end_f F calls with
          | None => true
-         | Some tc => Nat.leb (length (filter (fun s => tc <? s) (cycle_starts (first_start t0 a) cs p))) 1
+         | Some tc => Nat.leb (length (filter (fun s => tc <? s) (cycle_starts_f F (first_start t0 a) cs (per F (f_hb_spawn_period F) p)))) 1
          end
       && match alive_until with
          | None => true
          | Some t =>
-             match loop_end calls with
-             | Some tc => (t <=? tc) && (t <=? end_start (first_start t0 a) cs p + 10 * p) || (tc <? t)
-             | None => t <=? end_start (first_start t0 a) cs p + 10 * p
+             match loop_end_f F calls with
+             | Some tc => (t <=? tc) && (stopped_f F cs || (t <=? end_start_f F (first_start t0 a) cs (per F (f_hb_spawn_period F) p) + 10 * p)) || (tc <? t)
+             | None => stopped_f F cs || (t <=? end_start_f F (first_start t0 a) cs (per F (f_hb_spawn_period F) p) + 10 * p)
              end
          end
   end.
+
+(* the correspondence is evaluated on the GENERATED instance; the period the harness assumes must be the code's *)
+Definition case_period (c : case) : Z :=
+  match c with CView p _ _ _ _ => p | COp p _ _ _ _ _ _ => p | CTrace p _ _ _ _ _ _ _ _ _ => p | CHolder p _ _ _ _ _ _ _ => p end.
+
+Definition check_case (c : case) : bool :=
+  (case_period c =? f_period_ns gen_facts) && check_case_f gen_facts c.
